@@ -26,16 +26,29 @@ Definition names_of_objects (objs : list nat) (vs : vals) : list string := map (
 (* names given by a graph-local authority whose counter stands at c to k new values *)
 Definition local_names (c k : nat) : list string := map (fun j => ("val_" ++ nat_to_string j)%string) (seq c k).
 
-(* the repair: every new value is named rewritten_val_<j>, j least such that the name is in use nowhere in the model *)
-Fixpoint fresh_seq (used : list string) (k : nat) : list string :=
+(* the repair (RewriteRuleSet._name_new_values): `counter += 1; name = rewritten_val_<counter>` until the name is in use nowhere
+   in the model; the name joins the names in use.  c: the counter before the draw.  apply_to_model sets the counter to 0
+   and recomputes the names in use for every model (fix bb7dec3; before it the counter was carried over from the models
+   the same RewriteRuleSet object had rewritten earlier) *)
+Definition rv (j : nat) : string := ("rewritten_val_" ++ nat_to_string j)%string.
+
+Fixpoint fresh_ctr (c : nat) (used : list string) (k : nat) : list string :=
   match k with
   | O => []
   | S k' =>
-    match first_free (fun j => ("rewritten_val_" ++ nat_to_string j)%string) used (S (List.length used)) 1 with
-    | Some j => let nm := ("rewritten_val_" ++ nat_to_string j)%string in nm :: fresh_seq (nm :: used) k'
+    match first_free rv used (S (List.length used)) (S c) with
+    | Some j => rv j :: fresh_ctr j (rv j :: used) k'
     | None => []
     end
   end.
+
+(* names given to the k values created while ONE model is rewritten, as the code is now *)
+Definition fresh_seq (used : list string) (k : nat) : list string := fresh_ctr 0 used k.
+
+(* the same with the history of the rule set object made explicit: `carried` is where the counter stands after the models
+   rewritten before; reset = the counter restarts for every model *)
+Definition names_created (reset : bool) (carried : nat) (used : list string) (k : nat) : list string :=
+  fresh_ctr (if reset then 0 else carried) used k.
 
 (* witness of the finding C07:fresh-name-clash: Neg(Abs(v)) re-emitted inside the then-branch and, later in the node
    list, in the main graph; both graphs called their first new value val_0 *)
